@@ -29,6 +29,8 @@ pub enum Step {
     Execute,
     Batch,
     ExecuteIter,
+    /// paged execution during which every node forgets the statement right after serving the first page
+    ExecuteIterEvictMidway,
 }
 
 #[derive(Debug, Clone, Serialize, Deserialize)]
@@ -84,6 +86,7 @@ struct St {
     version: Mutex<u32>,
     nodes: Mutex<Vec<NodeState>>,
     seen: Mutex<Vec<Seen>>,
+    evict_after_next_page: std::sync::atomic::AtomicBool,
 }
 
 impl St {
@@ -160,6 +163,11 @@ impl Script for St {
             (!skip, false)
         };
         push(ExecOutcome::Rows { version, with_metadata, announced_new_id: new_id });
+        if params.page_size.is_some() && params.paging_state.is_none() && self.evict_after_next_page.swap(false, std::sync::atomic::Ordering::SeqCst) {
+            for n in self.nodes.lock().unwrap().iter_mut() {
+                n.prepared = false;
+            }
+        }
         Action::Reply(self.rows_body(version, k, with_metadata, new_id, Some((params.page_size, params.paging_state.as_deref()))))
     }
 
@@ -198,6 +206,7 @@ pub fn oracle(c: &Case) -> Verdict {
         version: Mutex::new(0),
         nodes: Mutex::new((0..n_nodes).map(|_| NodeState { prepared: false, id_changed: false }).collect()),
         seen: Mutex::new(vec![]),
+        evict_after_next_page: std::sync::atomic::AtomicBool::new(false),
     });
     env.registry.register(&marker, st.clone());
     env.registry.note_id(&statement_id(&text), &marker);
@@ -268,8 +277,11 @@ pub fn oracle(c: &Case) -> Verdict {
                         Err(e) => Got::Err(e.to_string()),
                     }));
                 }
-                Step::ExecuteIter => {
+                Step::ExecuteIter | Step::ExecuteIterEvictMidway => {
                     k += 1;
+                    if step == Step::ExecuteIterEvictMidway {
+                        st2.evict_after_next_page.store(true, std::sync::atomic::Ordering::SeqCst);
+                    }
                     let r = tokio::time::timeout(Duration::from_secs(20), async {
                         let pager = session.execute_iter(prepared.clone(), (k,)).await.map_err(|e| e.to_string())?;
                         let specs: Vec<(String, Option<MType>)> = pager.column_specs().iter().map(|s| (s.name().to_string(), from_column_type(s.typ()))).collect();
@@ -400,7 +412,7 @@ pub fn oracle(c: &Case) -> Verdict {
         }
         let id_mismatch_here = frames.iter().any(|f| matches!(f, Seen::Prepare { id_returned, .. } if *id_returned != my_id));
         match (step, got) {
-            (Step::ExecuteIter, Got::Err(_)) if !ext && c.use_cached_metadata && frames.iter().any(|f| matches!(f, Seen::Execute { version, .. } if *version > 0)) => {
+            (Step::ExecuteIter | Step::ExecuteIterEvictMidway, Got::Err(_)) if !ext && c.use_cached_metadata && frames.iter().any(|f| matches!(f, Seen::Execute { version, .. } if *version > 0)) => {
                 // documented hazard: cached result metadata without metadata ids goes stale after a schema change
             }
             (_, Got::Err(e)) => {
@@ -437,7 +449,7 @@ pub fn oracle(c: &Case) -> Verdict {
                     }
                 }
             }
-            (Step::ExecuteIter, Got::Rows { rows, .. }) => {
+            (Step::ExecuteIter | Step::ExecuteIterEvictMidway, Got::Rows { rows, .. }) => {
                 if let Ok(r) = rows {
                     vassert_eq!(r.len(), 3, "iter_row_count", "op #{oi}: paged execution must deliver the 3 rows of the two pages");
                 }
@@ -466,6 +478,7 @@ pub fn case() -> BoxedStrategy<Case> {
         6 => Just(Step::Execute),
         2 => Just(Step::Batch),
         2 => Just(Step::ExecuteIter),
+        2 => Just(Step::ExecuteIterEvictMidway),
     ];
     (1u8..=3, any::<bool>(), any::<bool>(), proptest::collection::vec(step, 1..=12))
         .prop_map(|(nodes, metadata_id_ext, use_cached_metadata, steps)| Case { nodes, metadata_id_ext, use_cached_metadata, steps })
